@@ -935,9 +935,10 @@ class Driver:
             return "indep" if fl & F_INDEP else "coll"
         df, nf = o[0], o[8]
         r = {"dmode": mode(df), "dro": int(bool(df & F_RDONLY)), "dnew": int(bool(df & F_CREATE)),
+             "dbits": int(bool(df & F_DEF)) + int(bool(df & F_INDEP)),
              "dfill": int(bool(df & F_FILL)), "nopen": o[7], "nvars": o[5], "ndims": o[3], "unlim": o[4]}
         if nf != -1:
-            r.update(nmode=mode(nf), nro=int(bool(nf & F_RDONLY)), nnew=int(bool(nf & F_CREATE)),
+            r.update(nbits=int(bool(nf & F_DEF)) + int(bool(nf & F_INDEP)), nmode=mode(nf), nro=int(bool(nf & F_RDONLY)), nnew=int(bool(nf & F_CREATE)),
                      nfill=int(bool(nf & F_FILL)), dirty=int(bool(nf & NC_NDIRTY)), numrecs=o[9],
                      lget=o[10], lput=o[11], nget=o[12], nput=o[13], asize=o[14], aused=o[15],
                      atail=o[16], old=o[17], xsz=o[18], begin_var=o[19], begin_rec=o[20], recsize=o[21],
